@@ -237,15 +237,23 @@ def run(ctx):
                                                                      for o in origins(clp0, v)), True)
         ctx.check('C10.O1', ok, clp0.name, 'CLParser:include-note-dropped-as-filename', clp0.where(e),
                   'FilterInputFilename is consulted only for lines FilterShowIncludes did not recognise')
+    dp = prog.fn('DepfileParser::Parse')
+    pushes = [e for e in dp.events('call') if lastname(e.get('name') or '').split('<')[0] in ('push_back', 'emplace_back') and
+              mentions_field(e.get('recv'), 'DepfileParser::ins_')]
+    ctx.check('C10.O1', len(pushes) >= 1, dp.name, 'depfile:ins-push-absent', dp.loc, 'the depfile parser collects prerequisites in ins_')
+    for e in pushes:
+        guarded(ctx, 'C10.O1', dp, e, lambda a: mentions_field(a, 'DepfileParser::outs_'), None,
+                'every prerequisite named by the depfile becomes an input - also one that the same depfile names as a target elsewhere',
+                construct='depfile:input-dropped-by-target-list', forbidden=True)
     from props.scan_common import check_readfile_status
     check_readfile_status(ctx, 'C10.O1', prog, ['Builder::ExtractDeps', 'ImplicitDepLoader::LoadDepFile'])
-    ctx.floor('C10.O1', 9)
+    ctx.floor('C10.O1', 11)
 
     # ---- CN ------------------------------------------------------------------------------------------
     R('C10.CN', 'CN', 'depfile, deps=gcc and deps=msvc paths are canonicalised before they become nodes')
     canon_before_intern(ctx, 'C10.CN', prog.fn('ImplicitDepLoader::ProcessDepfileDeps'))
     canon_before_intern(ctx, 'C10.CN', ed, exempt={
-        ('Builder::ExtractDeps', 'State::GetNode', 'i'):
+        ('Builder::ExtractDeps', 'State::GetNode', 'elem-of:CLParser::includes_'):
             'deps=msvc: CLParser::Parse canonicalises each include before inserting it into includes_ (checked next)'})
     clp = prog.fn('CLParser::Parse')
     for e in clp.events('call'):
